@@ -76,7 +76,7 @@ theorem upd_perm_id {α} (tag : α → Nat) {l : List α} {n : α} (hnd : (l.map
   simpa using this
 
 /-- with distinct keys, the elements with one key form a list of at most one element -/
-theorem filter_key_eq {α β} [DecidableEq β] (key : α → β) : ∀ {l : List α} (k : β), (l.map key).Nodup →
+theorem filter_key_eq {α β} [BEq β] [LawfulBEq β] (key : α → β) : ∀ {l : List α} (k : β), (l.map key).Nodup →
     l.filter (fun x => key x == k) = (l.find? fun x => key x == k).toList
   | [], _, _ => rfl
   | a :: l, k, h => by
@@ -108,7 +108,7 @@ theorem find?_perm {α} {p : α → Bool} {l1 l2 : List α} (hp : l1.Perm l2)
       rw [hu x hx y (hp.mem_iff.2 hy) hpx hpy]
 
 /-- `flatMap` of a function that contributes only under one key -/
-theorem flatMap_filter_key {α β γ} [DecidableEq β] (key : α → β) (f : α → List γ) (q : β → γ → Bool)
+theorem flatMap_filter_key {α β γ} [BEq β] [LawfulBEq β] (key : α → β) (f : α → List γ) (q : β → γ → Bool)
     (hq : ∀ a k, key a ≠ k → (f a).filter (q k) = []) : ∀ {l : List α} (k : β), (l.map key).Nodup →
     (l.flatMap f).filter (q k) = match l.find? fun x => key x == k with
       | some a => (f a).filter (q k)
